@@ -544,6 +544,7 @@ const (
 // DialOutcome scripts one Dialer invocation.
 type DialOutcome struct {
 	Kind    int
+	Deaf    bool           // a parked invocation ignores the end of its context (a Dialer need not honour it in time)
 	Connack *ConnackPolicy // nil = world default
 }
 
@@ -603,7 +604,7 @@ func (w *World) dialer(ctx context.Context) (net.Conn, error) {
 			w.cond.Broadcast()
 			w.mu.Unlock()
 		})
-		for w.dialRelease == 0 && ctx.Err() == nil && !w.closedWorld {
+		for w.dialRelease == 0 && (o.Deaf || ctx.Err() == nil) && !w.closedWorld {
 			w.cond.Wait()
 		}
 		stop()
